@@ -147,6 +147,13 @@ def _r20_2(res, P, cfgname):
                 continue
             g = fr.get("g", [])
             if len(g) < 2 or not g[1].endswith("ParseError"):
+                # any other error type (ParseIntError of the `base N` literal, ...): turning the error into a
+                # value merges "malformed" with a well-formed case
+                meth = "::" + cp.rsplit("::", 1)[1]
+                if meth in ("::ok", "::unwrap_or", "::unwrap_or_default", "::unwrap_or_else", "::map_or", "::is_ok", "::is_err"):
+                    n += 1
+                    res.fail("R20.2", cfgname, "Result<_, %s>%s in %s" % (g[1].rsplit("::", 1)[-1] if len(g) > 1 else "?", meth, f["p"]),
+                             "%s turns an error (%s) into a value with Result%s: a malformed part of the literal is merged with a well-formed case instead of aborting the expansion" % (f["p"], g[1] if len(g) > 1 else "?", meth), span_loc(t["sp"]))
                 continue
             n += 1
             meth = "::" + cp.rsplit("::", 1)[1]
